@@ -43,6 +43,10 @@ type Spec struct {
 	// an error is machinery trouble (exit 2).
 	SelfTest   func(sc *Scratch, tier string) error
 	MemLimitKB int64
+	// RealBinaries: import paths (package main) built from an UNINSTRUMENTED
+	// copy of the tree under test before instrumentation; the harness gets
+	// -arg realbin.<base>=<path>.
+	RealBinaries map[string]string // name -> "module dir relative to repo root|package path relative to module"
 	// TestPkgs are packages of the tree under test whose own tests are run
 	// against the instrumented copy before the workers start (transparency
 	// self-test of the instrumenter).
@@ -317,6 +321,10 @@ func Check(spec *Spec, o Options) int {
 	if err := sc.WriteGoMod(nil); err != nil {
 		return trouble("go.mod: %v", err)
 	}
+	realArgs, err := sc.BuildReal(spec.RealBinaries)
+	if err != nil {
+		return trouble("build failed (the tree under test does not compile):\n%v", err)
+	}
 	if spec.Instrument != nil {
 		if err := spec.Instrument(sc); err != nil {
 			return trouble("instrumentation failed: %v", err)
@@ -327,6 +335,7 @@ func Check(spec *Spec, o Options) int {
 		return trouble("build failed (the tree under test or the harness does not compile):\n%v", err)
 	}
 	logf("built harness in %.1fs", time.Since(start).Seconds())
+	var selfTests []string
 	if spec.SelfTest != nil {
 		if err := spec.SelfTest(sc, o.Tier); err != nil {
 			return trouble("self-test failed: %v", err)
@@ -338,6 +347,7 @@ func Check(spec *Spec, o Options) int {
 			return trouble("transparency self-test failed: the repository's own tests do not pass on the instrumented copy (instrumenter defect, or the tree under test fails its own tests):\n%v", err)
 		}
 		logf("transparency self-test: the repository's tests pass on the instrumented copy (%.1fs)", time.Since(t0).Seconds())
+		selfTests = append(selfTests, fmt.Sprintf("transparency: the repository's own tests of %v pass on the instrumented copy", spec.TestPkgs))
 	}
 	if o.Tier == "thorough" && os.Getenv("VERIF_SKIP_DETERMINISM") == "" {
 		t0 := time.Now()
@@ -345,6 +355,7 @@ func Check(spec *Spec, o Options) int {
 			return trouble("determinism self-test failed: %v", err)
 		}
 		logf("determinism self-test passed (%.1fs)", time.Since(t0).Seconds())
+		selfTests = append(selfTests, "determinism: 24 runs gave identical per-run digests in 6 process configurations (GOMAXPROCS 1/4/16, 1-3 shards)")
 	}
 
 	runs, cap := spec.QuickRuns, spec.QuickCap
@@ -380,6 +391,7 @@ func Check(spec *Spec, o Options) int {
 	if spec.ExtraArgs != nil {
 		base = append(base, spec.ExtraArgs(sc, o.Tier)...)
 	}
+	base = append(base, realArgs...)
 	reports := make([]*workerReport, shards)
 	errs := make([]error, shards)
 	var wg sync.WaitGroup
@@ -504,26 +516,27 @@ func Check(spec *Spec, o Options) int {
 	wall := time.Since(start).Seconds()
 	evals := agg.Runs + agg.EnumRuns
 	cov := map[string]any{
-		"evaluations":                     evals,
-		"distinct_nontrivial":             len(hashes),
-		"rule":                            spec.Rule,
-		"samples":                         agg.Samples,
-		"seeded_runs":                     agg.Runs,
-		"enumerated_cases":                agg.EnumRuns,
-		"enumerated_space":                agg.EnumTotal,
-		"exhaustive":                      false,
-		"enumeration_complete":            agg.EnumTotal > 0 && agg.EnumRuns == agg.EnumTotal,
-		"nontrivial_not_deduplicated":     agg.Nontrivial,
-		"scheduling_points":               agg.Steps,
-		"simulated_time_ns":               agg.VirtualNS,
-		"runs_per_hour":                   int64(float64(evals) / wall * 3600),
-		"fault_and_probe_counters":        agg.Counters,
-		"workers":                         shards,
-		"stopped_early_on_wall_clock_cap": agg.StoppedEarly,
-		"tree_hash":                       sc.TreeHash,
-		"components":                      agg.Info,
-		"known_findings_reobserved":       knownSeen,
-		"violation_records":               violRecords,
+		"evaluations":                       evals,
+		"distinct_nontrivial":               len(hashes),
+		"rule":                              spec.Rule,
+		"samples":                           agg.Samples,
+		"seeded_runs":                       agg.Runs,
+		"enumerated_cases":                  agg.EnumRuns,
+		"enumerated_space":                  agg.EnumTotal,
+		"exhaustive":                        false,
+		"enumeration_complete":              agg.EnumTotal > 0 && agg.EnumRuns == agg.EnumTotal,
+		"nontrivial_not_deduplicated":       agg.Nontrivial,
+		"scheduling_points":                 agg.Steps,
+		"simulated_time_ns":                 agg.VirtualNS,
+		"runs_per_hour":                     int64(float64(evals) / wall * 3600),
+		"fault_and_probe_counters":          agg.Counters,
+		"workers":                           shards,
+		"stopped_early_on_wall_clock_cap":   agg.StoppedEarly,
+		"tree_hash":                         sc.TreeHash,
+		"components":                        agg.Info,
+		"known_findings_reobserved":         knownSeen,
+		"violation_records":                 violRecords,
+		"self_tests_passed_before_this_run": selfTests,
 	}
 	var zero []string
 	for k, v := range agg.Counters {
@@ -610,6 +623,11 @@ func Replay(spec *Spec, path string, o Options) int {
 		fmt.Fprintf(o.Stdout, "TROUBLE go.mod: %v\n", err)
 		return ExitTrouble
 	}
+	realArgs, err := sc.BuildReal(spec.RealBinaries)
+	if err != nil {
+		fmt.Fprintf(o.Stdout, "TROUBLE build failed: %v\n", err)
+		return ExitTrouble
+	}
 	if spec.Instrument != nil {
 		if err := spec.Instrument(sc); err != nil {
 			fmt.Fprintf(o.Stdout, "TROUBLE instrumentation failed: %v\n", err)
@@ -638,6 +656,11 @@ func Replay(spec *Spec, path string, o Options) int {
 		args = map[string]any{}
 	}
 	args["repo"] = sc.Repo
+	for i := 1; i < len(realArgs); i += 2 {
+		if k, v, ok := strings.Cut(realArgs[i], "="); ok {
+			args[k] = v
+		}
+	}
 	rf["args"] = args
 	nb, _ := json.Marshal(rf)
 	tmp := filepath.Join(sc.Dir, "replay.json")
@@ -869,4 +892,29 @@ func SelfTestOnly(spec *Spec, o Options, runs int64) int {
 	}
 	fmt.Fprintf(o.Stdout, "SELFTEST %s determinism ok: %d runs x 6 process configurations (GOMAXPROCS 1/4/16, 1-3 shards) gave identical per-run digests (%.1fs)\n", spec.ID, runs, time.Since(t0).Seconds())
 	return ExitOK
+}
+
+// BuildReal builds the given main packages from the scratch copy as it is
+// (call it before instrumentation) and returns -arg flags naming the binaries.
+func (sc *Scratch) BuildReal(bins map[string]string) ([]string, error) {
+	var args []string
+	names := make([]string, 0, len(bins))
+	for n := range bins {
+		names = append(names, n)
+	}
+	sort.Strings(names)
+	for _, name := range names {
+		parts := strings.SplitN(bins[name], "|", 2)
+		out := filepath.Join(sc.Bin, "real-"+name)
+		cmd := exec.Command("go", "build", "-trimpath", "-o", out, parts[1])
+		cmd.Dir = filepath.Join(sc.Repo, parts[0])
+		cmd.Env = sc.Env
+		var buf bytes.Buffer
+		cmd.Stdout, cmd.Stderr = &buf, &buf
+		if err := cmd.Run(); err != nil {
+			return nil, fmt.Errorf("go build %s: %v\n%s", parts[1], err, buf.String())
+		}
+		args = append(args, "-arg", "realbin."+name+"="+out)
+	}
+	return args, nil
 }
